@@ -276,7 +276,11 @@ pixman_glyph_cache_insert (pixman_glyph_cache_t  *cache,
     width = image->bits.width;
     height = image->bits.height;
 
-    if (cache->n_glyphs >= HASH_SIZE)
+    /* Keep at least one slot NULL: lookup_glyph() only stops probing at a
+     * NULL slot, so a table completely filled with glyphs and tombstones
+     * would make the lookup of an absent key loop forever.
+     */
+    if (cache->n_glyphs + cache->n_tombstones >= HASH_SIZE - 1)
 	return NULL;
 
     if (!(glyph = malloc (sizeof *glyph)))
